@@ -56,27 +56,28 @@ def IsLineAt (val : Bytes) (start : Nat) (L : Bytes) : Prop :=
 
 /-- Block `b` is a true explanation of the sub-match `be = (beg, end)` of a pattern applied to `val`
 under the name `key` by the expression of line `lno`:
-* the head is `conf:lno: key: ` for the first block of an entry and as many blanks afterwards;
+* the head is `conf:lno: key: ` for the first block of an entry and `inspectHeadWidth` blanks (its columns: path and key
+  measured by `width`, the rest in bytes - fix 951a0f1) afterwards;
 * the quoted text is a line `L` of `val` without its leading blanks;
 * if `beg` is an offset of `val` that is not a newline, `L` is the line `beg` lies in;
 * the `$` marker is `width(matched text) - 2` columns after `^`;
 * if the sub-match does not begin inside the leading blanks of `L`, `^` stands in the column of the first
   matched byte (the complement is the pinned finding F15). -/
-def ExplainsSub (width : Bytes → Nat) (home confpath : Bytes) (lno : Nat) (key val : Bytes) (first : Bool)
+def ExplainsSub (width : Bytes → Nat → Nat) (home confpath : Bytes) (lno : Nat) (key val : Bytes) (first : Bool)
     (be : Nat × Nat) (b : Block) : Prop :=
   b.head = (if first then inspectPrefix home confpath lno ++ key ++ [58, 32]
-            else spaces (inspectPrefix home confpath lno ++ key ++ [58, 32]).length) ∧
-  b.len = width ((val.drop be.1).take (be.2 - be.1)) - 2 ∧
+            else spaces (inspectHeadWidth width home confpath lno key)) ∧
+  b.len = width (val.drop be.1) (be.2 - be.1) - 2 ∧
   ∃ start L, IsLineAt val start L ∧ b.quoted = L.drop (nspaces L) ∧
     (be.1 < val.length → val[be.1]? ≠ some 10 → start ≤ be.1 ∧ be.1 < start + L.length) ∧
     (start + nspaces L ≤ be.1 →
-      b.indent = (inspectPrefix home confpath lno ++ key ++ [58, 32]).length +
-        width ((val.drop (start + nspaces L)).take (be.1 - (start + nspaces L))))
+      b.indent = inspectHeadWidth width home confpath lno key +
+        width (val.drop (start + nspaces L)) (be.1 - (start + nspaces L)))
 
 /-- The blocks `bs` are a true and complete explanation of the entry `mh`: nothing for an entry whose
 type lacks the INSPECT flag (or that carries no key/value: not a dry run), otherwise one block per
 printed sub-match, in order. -/
-def ExplainsEntry (width : Bytes → Nat) (home confpath : Bytes) (mh : Match) (bs : List Block) : Prop :=
+def ExplainsEntry (width : Bytes → Nat → Nat) (home confpath : Bytes) (mh : Match) (bs : List Block) : Prop :=
   (mh.ty.isInspect = false ∨ mh.key = none ∨ mh.val = none → bs = []) ∧
   (∀ key val, mh.ty.isInspect = true → mh.key = some key → mh.val = some val →
     bs.length = (printedSubs mh).length ∧
@@ -104,7 +105,7 @@ terms of the list: no `match` sentinel (the entry `expr_eval_match` appends when
 rule starts) stands between an entry that prints something and the action it is printed under.
 (For a configuration without nested blocks this is exactly "the rule that fired".)  It is FALSE for
 mdsort: see `explainedInActionRule_false`. -/
-def ExplainedInActionRule (width : Bytes → Nat) (home confpath : Bytes) (ml : MatchList) : Prop :=
+def ExplainedInActionRule (width : Bytes → Nat → Nat) (home confpath : Bytes) (ml : MatchList) : Prop :=
   ∀ (before l r after : MatchList) (x a : Match),
     ml = before ++ (l ++ x :: r) ++ a :: after → a.ty.isAction = true →
     (∀ m ∈ l ++ x :: r, m.ty.isAction = false) →
@@ -225,17 +226,17 @@ theorem line_contains (val : Bytes) (beg : Nat) (hb : beg < val.length) (hnl : v
 /-! ### `expr_inspect` as a list of blocks -/
 
 /-- The block the model prints for the sub-match `be` (transcribed from `exprInspect.go`). -/
-def blockOf (width : Bytes → Nat) (home confpath : Bytes) (lno : Nat) (key val : Bytes) (first : Bool)
+def blockOf (width : Bytes → Nat → Nat) (home confpath : Bytes) (lno : Nat) (key val : Bytes) (first : Bool)
     (be : Nat × Nat) : Block :=
   let pre := inspectPrefix home confpath lno ++ key ++ [58, 32]
   let l0 := lineStart val be.1 (val.length + 1) 0
   let lbeg := l0 + nspaces (val.drop l0)
-  { head := if first then pre else spaces pre.length
+  { head := if first then pre else spaces (inspectHeadWidth width home confpath lno key)
     quoted := (val.drop lbeg).takeWhile (· != 10)
-    indent := pre.length + width ((val.drop lbeg).take (if lbeg ≤ be.1 then be.1 - lbeg else val.length - lbeg))
-    len := width ((val.drop be.1).take (be.2 - be.1)) - 2 }
+    indent := inspectHeadWidth width home confpath lno key + width (val.drop lbeg) (if lbeg ≤ be.1 then be.1 - lbeg else val.length - lbeg)
+    len := width (val.drop be.1) (be.2 - be.1) - 2 }
 
-theorem blockOf_explains (width : Bytes → Nat) (home confpath : Bytes) (lno : Nat) (key val : Bytes) (first : Bool)
+theorem blockOf_explains (width : Bytes → Nat → Nat) (home confpath : Bytes) (lno : Nat) (key val : Bytes) (first : Bool)
     (be : Nat × Nat) :
     ExplainsSub width home confpath lno key val first be (blockOf width home confpath lno key val first be) := by
   obtain ⟨beg, en⟩ := be
@@ -271,10 +272,10 @@ theorem printed_cons_some (s : Sub) (rest : List Sub) (b e : Nat) (h : s.off = s
     printed (s :: rest) = (b, e) :: printed rest := by
   simp only [printed, List.filterMap_cons, h, hbe, Bool.false_eq_true, ↓reduceIte]
 
-theorem go_false (width : Bytes → Nat) (home confpath : Bytes) (mh : Match) (key val : Bytes) (subs : List Sub) :
+theorem go_false (width : Bytes → Nat → Nat) (home confpath : Bytes) (mh : Match) (key val : Bytes) (subs : List Sub) :
     ∀ out : Bytes,
     exprInspect.go width home confpath mh key val subs false
-        (inspectPrefix home confpath mh.lno ++ key ++ [58, 32]).length out =
+        (inspectHeadWidth width home confpath mh.lno key) out =
       out ++ ((printed subs).map (blockOf width home confpath mh.lno key val false)).flatMap Block.text := by
   induction subs with
   | nil => intro out; simp [exprInspect.go, printed]
@@ -295,9 +296,9 @@ theorem go_false (width : Bytes → Nat) (home confpath : Bytes) (mh : Match) (k
         simp only [List.map_cons, List.flatMap_cons, Block.text, blockOf, len_eq, Bool.false_eq_true, ↓reduceIte,
           List.append_assoc]
 
-theorem go_true (width : Bytes → Nat) (home confpath : Bytes) (mh : Match) (key val : Bytes) (subs : List Sub) :
+theorem go_true (width : Bytes → Nat → Nat) (home confpath : Bytes) (mh : Match) (key val : Bytes) (subs : List Sub) :
     ∀ out : Bytes,
-    exprInspect.go width home confpath mh key val subs true (key.length + 2) out =
+    exprInspect.go width home confpath mh key val subs true (width key key.length + 2) out =
       out ++ (match printed subs with
         | [] => []
         | be :: rest =>
@@ -317,15 +318,14 @@ theorem go_true (width : Bytes → Nat) (home confpath : Bytes) (mh : Match) (ke
       · simp only [hbe, ↓reduceIte]
         rw [ih, printed_cons_empty s rest b e hoff hbe]
       · have hbe' : (b == e) = false := by simpa using hbe
-        have hP : key.length + 2 + (inspectPrefix home confpath mh.lno).length =
-            (inspectPrefix home confpath mh.lno ++ key ++ [58, 32]).length := by
-          simp only [List.length_append, List.length_cons, List.length_nil]; omega
+        have hP : width key key.length + 2 + inspectPrefixWidth width home confpath mh.lno =
+            inspectHeadWidth width home confpath mh.lno key := rfl
         simp only [hbe', Bool.false_eq_true, ↓reduceIte]
         rw [hP, go_false, printed_cons_some s rest b e hoff hbe']
         simp only [List.flatMap_cons, Block.text, blockOf, len_eq, ↓reduceIte, List.append_assoc]
 
 /-- The blocks of one entry. -/
-def entryBlocks (width : Bytes → Nat) (home confpath : Bytes) (mh : Match) : List Block :=
+def entryBlocks (width : Bytes → Nat → Nat) (home confpath : Bytes) (mh : Match) : List Block :=
   if mh.ty.isInspect then
     match mh.key, mh.val with
     | some key, some val =>
@@ -336,7 +336,7 @@ def entryBlocks (width : Bytes → Nat) (home confpath : Bytes) (mh : Match) : L
     | _, _ => []
   else []
 
-theorem exprInspect_eq (width : Bytes → Nat) (home confpath : Bytes) (mh : Match) :
+theorem exprInspect_eq (width : Bytes → Nat → Nat) (home confpath : Bytes) (mh : Match) :
     exprInspect width home confpath mh = (entryBlocks width home confpath mh).flatMap Block.text := by
   unfold exprInspect entryBlocks
   by_cases hi : mh.ty.isInspect = true
@@ -353,7 +353,7 @@ theorem exprInspect_eq (width : Bytes → Nat) (home confpath : Bytes) (mh : Mat
         cases printed mh.subs <;> simp
   · simp [hi]
 
-theorem entryBlocks_explains (width : Bytes → Nat) (home confpath : Bytes) (mh : Match) :
+theorem entryBlocks_explains (width : Bytes → Nat → Nat) (home confpath : Bytes) (mh : Match) :
     ExplainsEntry width home confpath mh (entryBlocks width home confpath mh) := by
   constructor
   · intro h
@@ -382,7 +382,7 @@ theorem entryBlocks_explains (width : Bytes → Nat) (home confpath : Bytes) (mh
 
 /-! ### `matches_inspect` as a list of groups -/
 
-theorem inspect_go_true (width : Bytes → Nat) (home confpath : Bytes) (stdinMode : Bool) (path : Bytes) (rest : MatchList) :
+theorem inspect_go_true (width : Bytes → Nat → Nat) (home confpath : Bytes) (stdinMode : Bool) (path : Bytes) (rest : MatchList) :
     ∀ (pending : MatchList) (out : Bytes), (∀ m ∈ pending, m.ty.isAction = false) →
     ∃ (groups : List (MatchList × Match)) (tail : MatchList),
       pending ++ rest = groups.flatMap (fun g => g.1 ++ [g.2]) ++ tail ∧
@@ -422,7 +422,7 @@ theorem inspect_go_true (width : Bytes → Nat) (home confpath : Bytes) (stdinMo
       refine ⟨groups, tail, ?_, h2, h3, h4⟩
       rw [← h1]; simp
 
-theorem flatMap_entryBlocks (width : Bytes → Nat) (home confpath : Bytes) (es : MatchList) :
+theorem flatMap_entryBlocks (width : Bytes → Nat → Nat) (home confpath : Bytes) (es : MatchList) :
     es.flatMap (exprInspect width home confpath) =
       (es.map (entryBlocks width home confpath)).flatten.flatMap Block.text := by
   induction es with
@@ -430,7 +430,7 @@ theorem flatMap_entryBlocks (width : Bytes → Nat) (home confpath : Bytes) (es 
   | cons e r ih =>
     simp only [List.flatMap_cons, List.map_cons, List.flatten_cons, List.flatMap_append, ih, exprInspect_eq]
 
-theorem pointwise_entryBlocks (width : Bytes → Nat) (home confpath : Bytes) (es : MatchList) :
+theorem pointwise_entryBlocks (width : Bytes → Nat → Nat) (home confpath : Bytes) (es : MatchList) :
     Pointwise (ExplainsEntry width home confpath) es (es.map (entryBlocks width home confpath)) := by
   induction es with
   | nil => exact trivial
@@ -443,7 +443,7 @@ is, for a unique splitting of the list at its action entries into groups (entrie
 action, action) and trailing entries, the concatenation over the groups of the action's
 `path -> destination` line and the blocks of the group's entries, where the blocks of each entry are
 a true and complete explanation of it (`ExplainsEntry`). -/
-theorem explanations_true (width : Bytes → Nat) (home confpath : Bytes) (stdinMode : Bool) (path : Bytes) (ml : MatchList) :
+theorem explanations_true (width : Bytes → Nat → Nat) (home confpath : Bytes) (stdinMode : Bool) (path : Bytes) (ml : MatchList) :
     ∃ (groups : List Explained) (tail : MatchList),
       ml = groups.flatMap (fun g => g.entries ++ [g.action]) ++ tail ∧
       (∀ m ∈ tail, m.ty.isAction = false) ∧
@@ -507,7 +507,7 @@ theorem Block.text_ne_nil (b : Block) : b.text ≠ [] := by
   have := congrArg List.length h
   simp [Block.text] at this
 
-theorem exprInspect_ne_nil (width : Bytes → Nat) (home confpath : Bytes) (mh : Match) (key val : Bytes)
+theorem exprInspect_ne_nil (width : Bytes → Nat → Nat) (home confpath : Bytes) (mh : Match) (key val : Bytes)
     (hi : mh.ty.isInspect = true) (hk : mh.key = some key) (hv : mh.val = some val) (hp : printedSubs mh ≠ []) :
     exprInspect width home confpath mh ≠ [] := by
   rw [InspT.exprInspect_eq]
@@ -546,11 +546,8 @@ def env : Env where
   now := 1000
   strptime := fun _ => none
   zoneName := fun _ => none
-  fileTime := fun f => match f with
-    | .modified => some (100, t100)
-    | .created => some (200, t200)
-    | .access => some (300, t300)
-    | .header => none
+  fileTime := fun _ => some { atime := 300, mtime := 100, ctime := 200 }
+  timeFormat := fun t => if t = 100 then some t100 else if t = 200 then some t200 else if t = 300 then some t300 else none
   dryrun := true
   path := [47, 109, 47, 110, 101, 119, 47, 49]       -- /m/new/1
 
@@ -584,11 +581,11 @@ theorem eval_eq : (eval env msg tree 0 msg { ml := [], flags := MFlags.empty }).
 end InspWit
 
 theorem explainedInActionRule_false :
-    ¬ ExplainedInActionRule widthC [47, 104] [99, 111, 110, 102]
+    ¬ ExplainedInActionRule widthCn [47, 104] [99, 111, 110, 102]
       (eval InspWit.env InspWit.msg InspWit.tree 0 InspWit.msg { ml := [], flags := MFlags.empty }).2.ml := by
   intro h
   rw [InspWit.eval_eq.2] at h
-  have hne : exprInspect widthC [47, 104] [99, 111, 110, 102] InspWit.eDate2 ≠ [] :=
+  have hne : exprInspect widthCn [47, 104] [99, 111, 110, 102] InspWit.eDate2 ≠ [] :=
     exprInspect_ne_nil _ _ _ InspWit.eDate2 (ofString "Date") InspWit.t100 (by decide) rfl rfl (by decide)
   exact h [] [InspWit.eMtch2] [InspWit.eMtch3, InspWit.eDate3] [] InspWit.eDate2 InspWit.eMove
     rfl (by decide) (by decide) hne InspWit.eMtch3 (by simp) rfl
